@@ -67,9 +67,17 @@ def materialise(specs, shape):
     return res
 
 
+def input_image(case):
+    img = R.labelled(tuple(case['shape']))
+    if case.get('channels'):
+        # distinct channels: reversing or permuting the channel axis must show
+        img = np.stack([img + 100000 * c for c in range(case['channels'])], axis=-1)
+    return img
+
+
 def run_pipeline(specs, case):
     shape = tuple(case['shape'])
-    img = R.labelled(shape)
+    img = input_image(case)
     mask = (R.labelled(shape) % 7).astype(np.uint8)
     pipe = R.build(specs, bbox_format='pascal_voc_3d', kp_format='xyzas',
                    kp_kw={'angle_in_degrees': False, 'remove_invisible': False})
@@ -127,7 +135,7 @@ def check_one(name, specs_a, specs_b, case, viol):
     try:
         res = run_pipeline(a, case)
         if specs_b is None:
-            ref = {'image': R.labelled(shape), 'mask': (R.labelled(shape) % 7).astype(np.uint8),
+            ref = {'image': input_image(case), 'mask': (R.labelled(shape) % 7).astype(np.uint8),
                    'bboxes': case['bboxes'], 'keypoints': case['keypoints']}
         else:
             ref = run_pipeline(materialise(specs_b, shape), case)
@@ -149,8 +157,9 @@ def run(seed=0, tier='quick', hints=None, broken=False):
     viol = []
     evals = 0
     seen = set()
-    for _ in range(n):
+    for i in range(n):
         case = gen_case(rng)
+        case['channels'] = [None, 3, None, 2][i % 4]
         for name, a, b in pipelines(tuple(case['shape']), rng):
             check_one(name, a, b, case, viol)
             evals += 1
